@@ -9,34 +9,52 @@
 (***************************************************************************************)
 EXTENDS MC_Seq, Json
 
-VARIABLE hist
-gvars == <<vars, hist>>
+\* WantTags: {} = print every behaviour; otherwise only the behaviours that went through one of these situations
+\* (the specification's own state decides what is interesting: guided generation for deeper instances)
+CONSTANT WantTags
+
+VARIABLES hist, tags
+gvars == <<vars, hist, tags>>
 
 Done(op) == hist' = Append(hist, op)
 
-GInit == Init /\ hist = <<>>
+GInit == Init /\ hist = <<>> /\ tags = {}
+
+\* situations of the merge selection, evaluated when a merge starts
+ByCounters(f) == stats[f].dbytes > cfg.thDead \/ FragAbove(stats[f], cfg.thFragNum, cfg.thFragDen)
+MergeTags ==
+    LET el == {f \in DOMAIN stats : Eligible(f)} IN
+    (IF el # {} /\ Selected # el THEN {"closure"} ELSE {})                          \* an older file is taken only because a newer one is
+    \cup (IF el # {} /\ Selected # el /\ ~ByCounters(Max(el)) THEN {"closure-small"} ELSE {})   \* ... and that newer one only for its size
+    \cup (IF Selected # {} /\ \E f \in DOMAIN data \ Selected : Len(data[f].ents) > 0 THEN {"partial"} ELSE {})
+    \cup (IF Selected # {} /\ \A k \in Keys : keydir[k] = NoKE \/ keydir[k].fid \notin Selected THEN {"nothing-to-copy"} ELSE {})
+Tag(s) == tags' = tags \cup s
 
 GNext ==
-    \/ ("put" \in Ops /\ \E k \in Keys, v \in Vals : StartWrite(k, v)) /\ UNCHANGED hist
-    \/ ("del" \in Ops /\ \E k \in Keys : StartWrite(k, Tomb)) /\ UNCHANGED hist
-    \/ ("merge" \in Ops /\ StartMerge) /\ UNCHANGED hist
-    \/ ("reopen" \in Ops /\ Reopen) /\ Done([op |-> "reopen", exp |-> model])
-    \/ (AppendStep \/ SyncStep \/ AccountStep \/ RollStep) /\ UNCHANGED hist
-    \/ PublishStep /\ Done(IF wr.op = "put"
+    \/ ("put" \in Ops /\ \E k \in Keys, v \in Vals : StartWrite(k, v)) /\ UNCHANGED <<hist, tags>>
+    \/ ("del" \in Ops /\ \E k \in Keys : StartWrite(k, Tomb)) /\ UNCHANGED <<hist, tags>>
+    \/ ("merge" \in Ops /\ StartMerge) /\ UNCHANGED hist /\ Tag(MergeTags)
+    \/ ("reopen" \in Ops /\ Reopen) /\ Done([op |-> "reopen", exp |-> model]) /\ UNCHANGED tags
+    \/ (AppendStep \/ SyncStep \/ RollStep) /\ UNCHANGED <<hist, tags>>
+    \/ AccountStep /\ UNCHANGED hist
+          /\ Tag(IF wr.v = Tomb /\ written + ESize(wr.k, wr.v) > cfg.maxFile THEN {"tombstone-rolls"} ELSE {})
+    \/ PublishStep /\ UNCHANGED tags /\ Done(IF wr.op = "put"
                              THEN [op |-> "put", k |-> wr.k, v |-> wr.v, res |-> "ok", exp |-> model']
                              ELSE [op |-> "del", k |-> wr.k,
                                    res |-> IF keydir[wr.k] # NoKE THEN "true" ELSE "false", exp |-> model'])
     \/ MergeNewActive /\ Done([op |-> "merge", exp |-> model])
+          /\ Tag((IF wr.out > wr.first THEN {"output-rolled"} ELSE {})
+                 \cup (IF wr.out > wr.first /\ data[wr.out].ents = <<>> THEN {"empty-last-output"} ELSE {}))
     \/ (MergeCreateData \/ MergeCreateHint \/ (\E k \in Keys : MergeCopy(k)) \/ MergeCopyMore \/ MergeRepoint
           \/ MergeHint \/ MergeSyncData \/ MergeSyncHint \/ MergeLoopEnd \/ MergeUnlinkHint
-          \/ MergeUnlinkData) /\ UNCHANGED hist
+          \/ MergeUnlinkData) /\ UNCHANGED <<hist, tags>>
 
 GSpec == GInit /\ [][GNext]_gvars
 
 \* the interesting events a behaviour went through, for the coverage statistics
 Emit ==
-    (nops = MaxOps /\ wr = Idle) =>
-        PrintT(<<"BEHAVIOUR", ToJson([cfg |-> cfg, ops |-> hist,
+    (nops = MaxOps /\ wr = Idle /\ (WantTags = {} \/ tags \cap WantTags # {})) =>
+        PrintT(<<"BEHAVIOUR", ToJson([cfg |-> cfg, ops |-> hist, tags |-> tags,
                                       nfiles |-> Cardinality(everIds), nhints |-> Cardinality(DOMAIN hint)])>>)
 
 \* merge orders multiply states without adding client behaviours: the generator hides the
